@@ -43,12 +43,12 @@ def run(index, tier="quick", seed=0) -> Result:
             if e.type != "cmp" or e.form != "compare" or e.op in ("Eq", "NotEq"):
                 continue
             for side in (e.left, e.right):
-                if ("param", "angles") in side.al:
+                if "mod2pi" in side.tags:
+                    ncmp += 1
+                elif ("param", "angles") in side.al:
                     bad = True
                     res.bad("ANG-1", label, e.where(), f"{label} compares the caller's raw angles in `{e.src()[:60]}` "
                             f"(path {' -> '.join(e.path)}): angles outside [0, 2 pi) match no angular range")
-                elif "mod2pi" in side.tags:
-                    ncmp += 1
         if not bad:
             res.ok("ANG-1", label, nontrivial=ncmp > 0, sample={"impl": label, "normalised_comparisons": ncmp})
         # ---------------- FRAME-1
